@@ -228,6 +228,37 @@ def adopt(w: World, slot_idx: int, bound: str, owner="C13", trigger=""):
     def fail(detail):
         raise Violation(owner, "fault-bound", detail, trigger)
 
+    if bound == "free":
+        # structure is unspecified: every reachable node must be a known node of this
+        # slot (no new nodes), data / ids unchanged; the model takes over the shape
+        known = {m.uid: m for m in mt.root.iter_pre()}
+        seen = set()
+
+        def rebuild(m: MNode, r_obj):
+            kids = []
+            for rc in real_children(r_obj):
+                uid = w.uid_of.get(id(rc))
+                if uid is None or uid not in known:
+                    fail("unknown node in the tree")
+                if uid in seen:
+                    fail("node reachable twice")
+                seen.add(uid)
+                mc = known[uid]
+                if rc.data is not mc.data or rc.data_id != mc.did:
+                    fail(f"data / data_id of {uid} changed")
+                kids.append((mc, rc))
+            m.children = [k[0] for k in kids]
+            for mc, rc in kids:
+                mc.parent = m
+                rebuild(mc, rc)
+
+        rebuild(mt.root, slot.real)
+        for uid, m in known.items():
+            if uid not in seen:
+                removed.append(m)
+                m.parent = None
+        return removed
+
     def rec(m: MNode, r_obj):
         rkids = real_children(r_obj)
         uids = []
